@@ -12,6 +12,9 @@ CONSTANTS
   CountTruncated = TRUE
   HonourDisconnect = TRUE
   TellFromZero = TRUE
+  RejectNegativeCL = TRUE
+  AccountBeforeYield = TRUE
+  ExhaustToTheEnd = TRUE
   Depth = 4
   MaxEvents = 1
   MaxEvLen = 0
@@ -22,4 +25,5 @@ INVARIANT SizedReadBounded
 INVARIANT NeverAskBeyondCL
 INVARIANT IndicatorsAgree
 INVARIANT DisconnectEndsStream
+INVARIANT ExhaustEndsStream
 INVARIANT Emit
